@@ -118,10 +118,23 @@ func (iq *IndexQuery) FetchCollection(db *badger.DB) ([]string, error) {
 		seek := queryPrefix
 		if iq.Reverse {
 			// A reverse iterator seeks to the largest key less than or equal
-			// to the seek key, so start after the last key with the prefix.
-			seek = append(append(make([]byte, 0, qplen+1), queryPrefix...), 0xFF)
+			// to the seek key, so start at the smallest key that is greater
+			// than every key with the prefix: the prefix with its last byte
+			// that is not 0xFF incremented, and cut off after it. (The
+			// prefix begins with the index name, so there is such a byte.)
+			for i := qplen - 1; i >= 0; i-- {
+				if queryPrefix[i] != 0xFF {
+					seek = append(append(make([]byte, 0, i+1), queryPrefix[:i]...), queryPrefix[i]+1)
+					break
+				}
+			}
 		}
-		for it.Seek(seek); it.ValidForPrefix(queryPrefix); it.Next() {
+		it.Seek(seek)
+		if iq.Reverse && it.Valid() && !it.ValidForPrefix(queryPrefix) {
+			// The seek key itself exists; it does not have the prefix.
+			it.Next()
+		}
+		for ; it.ValidForPrefix(queryPrefix); it.Next() {
 			k := it.Item().Key()
 			idx := bytes.LastIndexByte(k, idSeparator)
 			if idx < 0 {
